@@ -361,7 +361,7 @@ func c14Set(c *core.Ctx) {
 			n++
 			construct := fmt.Sprintf("%s.(*processor).ProcessBlock#halt-site-%d", s.pkg, n)
 			// after halting, every path returns ErrInconsistentState without committing
-			bad := (&core.Walk{Target: func(i ssa.Instruction) bool {
+			bad := (&core.Walk{TargetPath: func(i ssa.Instruction, path []int) bool {
 				if core.IsCallTo(i, "(db/types.SQLTxer).Commit", "(db/types.Txer).Commit", "(*db.Tx).Commit") {
 					return true
 				}
@@ -369,7 +369,7 @@ func c14Set(c *core.Ctx) {
 				if !ok {
 					return false
 				}
-				return len(r.Results) != 1 || sx.Of(r.Results[0]).String() != errInconsistent
+				return len(r.Results) != 1 || sx.Of(core.ResolveOnPath(r.Results[0], path)).String() != errInconsistent
 			}}).From(core.After(st), nil)
 			if bad != nil {
 				c.Violate(rule, construct, bad.Instr.Pos(), "after setting halted=true a path commits the transaction or returns something other than ErrInconsistentState")
